@@ -1,7 +1,7 @@
 """C20 — what TAB inserts for a file name is read back as exactly that file.
 
 Real interactive binary on a pseudo-terminal (the real line editor, the real completer): for EVERY name of length 1
-(and 2; thorough also 3 in the unquoted context) over the 27-character file-name alphabet, preceded by a unique prefix
+(and 2; thorough also 3 in the unquoted context) over the 27-character file-name alphabet, plus 40 structured names (paired backquotes, $(x), ${x}, brace groups, embedded quotes ...), preceded by a unique prefix
 that selects it, the prefix is typed after `vh-argv ` unquoted, after an open single quote and after an open double
 quote, TAB is pressed, then Enter: the helper must receive exactly the entry's name. Directories: `cd <prefix>` TAB
 Enter must enter exactly that directory. Candidate lists: for populations with shared prefixes TAB TAB must offer
@@ -175,8 +175,13 @@ def run(rep, tier):
         names = [n for n in names if not (ctx == 'C' and False)]
         for i in range(0, len(names), 60):
             jobs.append((ctx, names[i:i + 60]))
+    # names built from paired / structured constructs (a command substitution, a brace group, a quoted part ...)
+    structured = ['`x`', '$(x)', '${x}', '$x', '{a,b}', '{1..2}', '[x]', "'x'", '"x"', '~x', 'x~', '*x*', '!!', '!x', '#x', 'x#y', 'a b', ' x', 'x ',
+                  '-x', 'x=y', 'x|y', 'x&y', 'x;y', 'x>y', 'x<y', '(x)', 'x\\y', '\\x', 'x\\', '$$', '$?', 'é`x`', "`x`'", '"`x`', '$(x)"', "it's",
+                  'a"b\'c', "`x`'\"", '$x\'"']
     for ctx in ('U', 'S', 'D', 'C'):
         add(ctx, names1)
+        add(ctx, structured)
     add('U', names2)
     hot = [n for n in names2 if any(c in n for c in '\'"\\$ `!')]
     if tier == 'thorough':
